@@ -23,6 +23,8 @@ def env(stage_dir, hs):
     e = dict(os.environ)
     e["PYTHONPATH"] = stage_dir + os.pathsep + HERE
     e["PYTHONHASHSEED"] = str(hs)
+    os.makedirs(os.path.join(stage_dir, "tmp"), exist_ok=True)
+    e["TMPDIR"] = os.path.join(stage_dir, "tmp")
     for k in ("OMP_NUM_THREADS", "OPENBLAS_NUM_THREADS", "MKL_NUM_THREADS", "NUMBA_NUM_THREADS"):
         e[k] = "1"
     return e
